@@ -15,7 +15,8 @@
        step's input alone (edits of the sub-size map happen before the first cached read: [edits_before_caches]);
    (c) correspondence: [hcase], [hagree], [hspec_ok], [hcheck].               No proofs in this file. *)
 From Coq Require Import ZArith QArith Qabs List Bool Arith.
-From PAV Require Import Base.NumOps Base.Res Base.Check Base.Sum Model.C09.
+From PAV Require Import Base.NumOps Base.Res Base.Check Base.Sum.
+From PAV Require Export Model.C09.
 Import ListNotations.
 
 Fixpoint set_nth {A} (i : nat) (v : A) (l : list A) : list A :=        (* l[i] = v (no effect out of range) *)
@@ -230,3 +231,6 @@ Definition hspec_ok (k : hcase) : bool :=
   end.
 
 Definition hcheck (k : hcase) : nat := verdict (hagree k) (hspec_ok k).
+
+(* the generated case files say `Definition cases : list case` after importing this module only *)
+Notation case := hcase (only parsing).
